@@ -53,6 +53,9 @@ static void ab_stub(ab_arc *a, size_t n, int family)
 		a->buf[a->n++] = family == 0 ? 0x00 : family == 1 ? (uint8_t) ('A' + i % 23) : (uint8_t) (0x80 | (i * 37 % 127));
 }
 
+/* when set, file members get their name twice (two 0x01 headers; level 1: in-header name and a 0x01 header) */
+static int AB_DOUBLE_NAME;
+
 /* path uses '/' separators and ends with '/', or is "" */
 static ab_member *ab_add(ab_arc *a, int level, int kind, const char *method, const char *path, const char *name,
                          const char *target, size_t plain_target, unsigned seed, int unix_meta, unsigned perms, uint32_t mtime)
@@ -109,7 +112,12 @@ static ab_member *ab_add(ab_arc *a, int level, int kind, const char *method, con
 			for (i = 0; i < L; ++i) pt[i] = full[i] == '/' ? 0xFF : (uint8_t) full[i];
 			if (L) { f.ext[f.next].type = 2; f.ext[f.next].data = pt; f.ext[f.next].len = L; ++f.next; }
 			snprintf((char *) nm, sizeof nm, "%s", full + L);
+			if (nm[0] && AB_DOUBLE_NAME) { f.ext[f.next].type = 1; f.ext[f.next].data = (const uint8_t *) "a-longer-name-first.tmp"; f.ext[f.next].len = 23; ++f.next; }
 			if (nm[0]) { f.ext[f.next].type = 1; f.ext[f.next].data = nm; f.ext[f.next].len = strlen((char *) nm); ++f.next; }
+		}
+		if (level == 1 && AB_DOUBLE_NAME && kind == 0 && name[0]) {
+			/* the file name once more in a 0x01 header after the in-header one */
+			f.ext[f.next].type = 1; f.ext[f.next].data = (const uint8_t *) name; f.ext[f.next].len = strlen(name); ++f.next;
 		}
 	}
 	if (level <= 1) f.time_raw = 0x3C21A000u; else f.time_raw = mtime;
